@@ -92,6 +92,32 @@ Conc(s) ==
     [] s = "bm"   -> <<BS,"b","e","g","i","n","{","m","i","n","i","p","a","g","e","}","{","z","}">>  \* paragraph-forming
     [] s = "em"   -> <<BS,"e","n","d","{","m","i","n","i","p","a","g","e","}">>
     [] s = "vb"   -> <<BS,"v","e","r","b","|","a","%","|">>          \* \verb|a%|
+    [] s = "vrb"  -> <<BS,"b","e","g","i","n","{","v","e","r","b","a","t","i","m","}",NL,"a","%",NL,BS,"e","n","d","{","v","e","r","b","a","t","i","m","}">>
+    [] s = "vrb2" -> <<BS,"b","e","g","i","n"," ","{","v","e","r","b","a","t","i","m","}","a","%",BS,"e","n","d","{","v","e","r","b","a","t","i","m","}">>
+    \* user definitions (C09) and their uses
+    [] s = "dA"  -> <<BS,"n","e","w","c","o","m","m","a","n","d","{",BS,"m","a","}","{","m","n","}">>
+    [] s = "dB"  -> <<BS,"n","e","w","c","o","m","m","a","n","d","{",BS,"m","b","}","[","1","]","{","m","#","1","n","}">>
+    [] s = "dC"  -> <<BS,"n","e","w","c","o","m","m","a","n","d","{",BS,"m","c","}","[","2","]","[","d","]","{","m","#","1","n","#","2","}">>
+    [] s = "dD"  -> <<BS,"n","e","w","c","o","m","m","a","n","d","{",BS,"m","d","}","[","1","]","{","#","1","#","1","}">>
+    [] s = "dE"  -> <<BS,"n","e","w","c","o","m","m","a","n","d","{",BS,"m","e","}","[","1","]","{","}">>
+    [] s = "dF"  -> <<BS,"d","e","f",BS,"m","f","#","1","{","m","#","1","}">>
+    [] s = "dG"  -> <<BS,"n","e","w","c","o","m","m","a","n","d","{",BS,"m","g","}","[","1","]","{",BS,"m","b","{","#","1","}","n","}">>
+    [] s = "rB"  -> <<BS,"r","e","n","e","w","c","o","m","m","a","n","d","{",BS,"m","b","}","[","1","]","{","n","#","1","}">>
+    [] s = "uA"  -> <<BS,"m","a">>
+    [] s = "uB"  -> <<BS,"m","b","{">>
+    [] s = "uBt" -> <<BS,"m","b"," ","b">>
+    [] s = "uC"  -> <<BS,"m","c","{">>
+    [] s = "uCo" -> <<BS,"m","c","[">>
+    [] s = "ocb" -> <<"]","{">>
+    [] s = "uD"  -> <<BS,"m","d","{">>
+    [] s = "uE"  -> <<BS,"m","e","{">>
+    [] s = "uF"  -> <<BS,"m","f","{">>
+    [] s = "uG"  -> <<BS,"m","g","{">>
+    \* citation with optional argument, \usepackage between text
+    [] s = "cto" -> <<BS,"c","i","t","e","[">>
+    [] s = "ctc" -> <<"]","{","k","}">>
+    [] s = "rbk" -> <<"]">>
+    [] s = "up"  -> <<BS,"u","s","e","p","a","c","k","a","g","e","{","x","c","o","l","o","r","}">>
     [] OTHER -> <<"?", "?">>
 
 ReplChar(s) ==
@@ -104,22 +130,39 @@ ReplSyms == {"tie","nd","md","lq","rq","thin","pct","amp","dol","hsh","usc","lbr
 OpenKind(s) ==     \* symbols that open a braced argument / group
   CASE s = "ob" -> "grp" [] s = "add" -> "arg" [] s = "fbx" -> "arg" [] s = "tc" -> "arg"
     [] s = "fn" -> "fn" [] s = "cap" -> "fn" [] s = "sec" -> "sec" [] s = "sub" -> "sec"
-OpenSyms == {"ob","add","fbx","tc","fn","cap","sec","sub"}
+    [] s \in {"uB","uC","uD","uE","uF","uG"} -> "marg" [] s = "uCo" -> "mopt" [] s = "cto" -> "copt"
+OpenSyms == {"ob","add","fbx","tc","fn","cap","sec","sub","uB","uC","uCo","uD","uE","uF","uG","cto"}
+DefSyms == {"dA","dB","dC","dD","dE","dF","dG","rB"}
+UseSyms == {"uA","uB","uBt","uC","uCo","uD","uE","uF","uG"}
+MacroOf(s) == CASE s \in {"dA","uA"} -> "ma" [] s \in {"dB","rB","uB","uBt"} -> "mb" [] s \in {"dC","uC","uCo"} -> "mc"
+                [] s \in {"dD","uD"} -> "md" [] s \in {"dE","uE"} -> "me" [] s \in {"dF","uF"} -> "mf" [] s \in {"dG","uG"} -> "mg"
+MacroNames == {"ma","mb","mc","md","me","mf","mg"}
+\* body of a definition: elements <<"t", ch>> (text), <<"a", k>> (parameter), <<"c", macro, elements>> (nested call with one argument)
+BodyOf(d) == CASE d = "dA" -> << <<"t","m">>, <<"t","n">> >>
+               [] d = "dB" -> << <<"t","m">>, <<"a",1>>, <<"t","n">> >>
+               [] d = "dC" -> << <<"t","m">>, <<"a",1>>, <<"t","n">>, <<"a",2>> >>
+               [] d = "dD" -> << <<"a",1>>, <<"a",1>> >>
+               [] d = "dE" -> << >>
+               [] d = "dF" -> << <<"t","m">>, <<"a",1>> >>
+               [] d = "dG" -> << <<"c","mb",<< <<"a",1>> >> >>, <<"t","n">> >>
+               [] d = "rB" -> << <<"t","n">>, <<"a",1>> >>
 BeginSyms == {"bi","be","bu","bl","bm"}
 EndSyms == {"ei","ee","eu","el","em"}
 EnvOf(s) == CASE s \in {"bi","ei"} -> "itemize" [] s \in {"be","ee"} -> "enumerate"
               [] s \in {"bu","eu"} -> "unk" [] s \in {"bl","el"} -> "lstlisting" [] s \in {"bm","em"} -> "minipage"
 
 AllSyms == Visible \cup ReplSyms \cup OpenSyms \cup BeginSyms \cup EndSyms \cup
-   {"sp","nl","tab","cm","lb","ix","uk","uk2","cb","skp","par","im","imp","ref","cite","skb","ske","q","fnq","it","vb"}
+   {"sp","nl","tab","cm","lb","ix","uk","uk2","cb","skp","par","im","imp","ref","cite","skb","ske","q","fnq","it","vb","vrb","vrb2","ocb","ctc","rbk","up","uA","uBt"} \cup DefSyms
 
 (***************************************************************************)
 (* Reference state                                                         *)
 (***************************************************************************)
-Frame(k, flow, start) == [k |-> k, flow |-> flow, start |-> start, has |-> FALSE, last |-> "", cnt |-> 0]
+Frame(k, flow, start) == [k |-> k, flow |-> flow, start |-> start, has |-> FALSE, last |-> "", cnt |-> 0,
+                          nm |-> "", mark |-> 0, args |-> <<>>]
 
 St0 == [src |-> <<>>, ctx |-> <<>>, flows |-> << <<>> >>, spans |-> << <<0,0>> >>,
-        unk |-> <<>>, nfml |-> 0, cw |-> FALSE, vis |-> FALSE, feat |-> {}]
+        unk |-> <<>>, nfml |-> 0, cw |-> FALSE, vis |-> FALSE, feat |-> {},
+        defs |-> [m \in MacroNames |-> "none"]]
 
 Top(st) == st.ctx[Len(st.ctx)]
 CurFlow(st) == IF st.ctx = <<>> THEN 1 ELSE Top(st).flow
@@ -128,7 +171,7 @@ InSkip(st) == st.ctx # <<>> /\ Top(st).k \in {"skip", "rm"}
 Pos0(st) == Len(st.src)          \* 0-based offset of the next character = 1-based position of the last one
 
 Emit(st, items) == [st EXCEPT !.flows[CurFlow(st)] = @ \o items]
-CwSyms == {"uk", "uk2", "par", "it"}        \* symbols whose text ends with a control word
+CwSyms == {"uk", "uk2", "par", "it", "uA"}        \* symbols whose text ends with a control word
 AddSrc(st, s) == [st EXCEPT !.src = @ \o Conc(s), !.cw = s \in CwSyms, !.vis = s \in Visible]
 Feat(st, f) == [st EXCEPT !.feat = @ \cup {f}]
 \* text seen inside the innermost heading (for the dot rule) and in every enclosing frame
@@ -152,13 +195,24 @@ AllowedCtx(st, s) ==
   \* a tie or thin space on an otherwise blank line is white space for the line-removal pass
   \* (excluded from C02/C06, see the statement of C06): only directly after a visible character
   /\ s \in {"tie","thin"} => st.vis
-  /\ s = "cb" => st.ctx # <<>> /\ Top(st).k \in {"grp","arg","fn","sec"}
+  /\ s = "cb" => st.ctx # <<>> /\ Top(st).k \in {"grp","arg","fn","sec","marg"}
+  /\ s = "ocb" => st.ctx # <<>> /\ Top(st).k = "mopt"
+  /\ s = "ctc" => st.ctx # <<>> /\ Top(st).k = "copt"
+  /\ s = "rbk" => Len(st.ctx) >= 2 /\ Top(st).k = "grp" /\ st.ctx[Len(st.ctx)-1].k \in {"copt", "mopt"}
+  /\ s \in DefSyms \cup {"up"} => st.ctx = <<>>
+  /\ s = "rB" => st.defs["mb"] # "none"
+  /\ s = "uCo" => st.defs["mc"] # "none"
+  /\ s \in DefSyms \ {"rB"} => st.defs[MacroOf(s)] = "none"
+  \* inside an optional argument: plain text and groups only
+  /\ (st.ctx # <<>> /\ Top(st).k \in {"copt","mopt"}) => s \in Visible \cup {"sp","ob","ctc","ocb"}
+  /\ (Len(st.ctx) >= 2 /\ Top(st).k = "grp" /\ st.ctx[Len(st.ctx)-1].k \in {"copt","mopt"}) => s \in Visible \cup {"sp","rbk","cb"}
+  /\ s \in UseSyms \cup {"cto"} => ~InKind(st, "sec")
   /\ s \in EndSyms => st.ctx # <<>> /\ Top(st).k = "env" /\ Top(st).last = EnvOf(s)
   /\ s = "it" => st.ctx # <<>> /\ Top(st).k = "env" /\ Top(st).last \in {"itemize","enumerate"}
   /\ s \in {"fn","cap"} => ~InKind(st, "fn")            \* nested detached flows: order not documented
   /\ s \in {"skb"} => st.ctx = <<>>                        \* skip regions at top level only
   /\ s \in {"sec","sub"} => ~InKind(st, "sec")
-  /\ s \in BeginSyms \cup {"par"} => ~InKind(st, "sec") /\ ~InKind(st, "arg")
+  /\ s \in BeginSyms \cup {"par", "vrb", "vrb2"} => ~InKind(st, "sec") /\ ~InKind(st, "arg") /\ ~InKind(st, "fn")
 
 Allowed(st, s) ==
   \* a letter directly after a control word would change the macro name
@@ -171,6 +225,22 @@ Closed(st) == st.ctx = <<>>
 
 DigitStr(n) == CASE n = 0 -> "0" [] n = 1 -> "1" [] n = 2 -> "2" [] n = 3 -> "3" [] n = 4 -> "4"
                  [] n = 5 -> "5" [] n = 6 -> "6" [] n = 7 -> "7" [] n = 8 -> "8" [] n = 9 -> "9"
+
+\* layout entries inside a reused argument make no separator claim
+Opaque(seg) == [i \in 1..Len(seg) |-> IF seg[i].t \in {"ws","cm","cw","v","pb"} THEN (IF seg[i].t = "ws" THEN seg[i] ELSE Lay("x")) ELSE seg[i]]
+\* TeX substitution: the body with each #k replaced by the k-th argument; text of the body is
+\* generated text of the call (span lo..hi); nested calls expand fully (depth bounds the recursion)
+RECURSIVE ExpandElems(_, _, _, _, _, _)
+ExpandBody(defs, d, args, lo, hi, depth) == ExpandElems(defs, BodyOf(d), args, lo, hi, depth)
+ExpandElems(defs, els, args, lo, hi, depth) ==
+  IF els = <<>> \/ depth = 0 THEN <<>>
+  ELSE LET e == Head(els)
+           this == CASE e[1] = "t" -> <<It("f", e[2], lo, hi, 0)>>
+                     [] e[1] = "a" -> Opaque(args[e[2]])
+                     [] e[1] = "c" -> LET inner == ExpandElems(defs, e[3], args, lo, hi, depth) IN
+                                      IF defs[e[2]] = "none" THEN inner
+                                      ELSE ExpandElems(defs, BodyOf(defs[e[2]]), <<inner>>, lo, hi, depth - 1)
+       IN this \o ExpandElems(defs, Tail(els), args, lo, hi, depth)
 
 (***************************************************************************)
 (* One symbol                                                              *)
@@ -209,6 +279,33 @@ Step(st, s) ==
     [] s = "cite" -> NoteText(Emit(s1, <<Lay("x"), It("f", "[", p0+1, p1, 0), It("f", "0", p0+1, p1, 0),
                                         It("f", "]", p0+1, p1, 0), Lay("x")>>), "]")
     [] s = "vb" -> NoteText(Emit(s1, <<Lay("x"), It("c", "a", p0+7, p0+7, 0), It("c", "%", p0+8, p0+8, 0), Lay("x")>>), "%")
+    \* verbatim environment: content copied with exact positions, framed by paragraph breaks
+    [] s = "vrb" -> NoteText(Emit(s1, <<It("g", "ws", p0+1, p1, 0), Lay("pb"), Lay("x"), It("c", "a", p0+18, p0+18, 0), It("c", "%", p0+19, p0+19, 0),
+                                       Lay("x"), It("g", "ws", p0+1, p1, 0), Lay("pb")>>), "%")
+    [] s = "vrb2" -> NoteText(Emit(s1, <<It("g", "ws", p0+1, p1, 0), Lay("pb"), Lay("x"), It("c", "a", p0+18, p0+18, 0), It("c", "%", p0+19, p0+19, 0),
+                                       Lay("x"), It("g", "ws", p0+1, p1, 0), Lay("pb")>>), "%")
+    [] s \in DefSyms -> [Emit(s1, <<Lay("v")>>) EXCEPT !.defs[MacroOf(s)] = s]
+    [] s = "up" -> Emit(s1, <<Lay("v")>>)
+    [] s = "rbk" -> NoteText(Emit(s1, <<It("c", "]", p0+1, p0+1, 0)>>), "]")
+    [] s = "uA" ->
+         IF st.defs["ma"] = "none" THEN AddUnk(Emit(s1, <<Lay("cw")>>), "\\ma")
+         ELSE NoteText(Emit(Feat(s1, "umacro"), <<Lay("x")>> \o ExpandBody(st.defs, st.defs["ma"], <<>>, p0+1, p1, 3) \o <<Lay("x"), Lay("cw")>>), "n")
+    [] s = "uBt" ->
+         IF st.defs["mb"] = "none" THEN NoteText(AddUnk(Emit(s1, <<Lay("cw"), It("ws","",0,0,0), It("c", "b", p1, p1, 0)>>), "\\mb"), "b")
+         ELSE NoteText(Emit(Feat(Feat(s1, "umacro"), "single-token-arg"),
+                   <<Lay("x")>> \o ExpandBody(st.defs, st.defs["mb"], << <<It("c", "b", p1, p1, 0)>> >>, p0+1, p1, 3) \o <<Lay("x")>>), "n")
+    [] s = "ocb" ->
+         \* the optional argument of \mc ends, its mandatory argument begins
+         LET fr == Top(st)
+             seg == SubSeq(st.flows[fr.flow], fr.mark + 1, Len(st.flows[fr.flow])) IN
+         [s1 EXCEPT !.flows[fr.flow] = SubSeq(@, 1, fr.mark),
+                    !.ctx[Len(st.ctx)] = [fr EXCEPT !.k = "marg", !.args = <<seg>>]]
+    [] s = "ctc" ->
+         LET fr == Top(st)
+             seg == SubSeq(st.flows[fr.flow], fr.mark + 1, Len(st.flows[fr.flow]))
+             s2 == [s1 EXCEPT !.ctx = SubSeq(@, 1, Len(@)-1), !.flows[fr.flow] = SubSeq(@, 1, fr.mark)] IN
+         NoteText(Emit(s2, <<Lay("x"), It("f", "[", fr.start+1, p1, 0), It("f", "0", fr.start+1, p1, 0), It("f", ",", fr.start+1, p1, 0),
+                          It("g", "ws", fr.start+1, p1, 0), Lay("x")>> \o Opaque(seg) \o <<It("f", "]", fr.start+1, p1, 0), Lay("x")>>), "]")
     [] s = "skb" -> [s1 EXCEPT !.ctx = Append(@, Frame("skip", CurFlow(st), p0))]
     [] s \in OpenSyms ->
          LET k == OpenKind(s) IN
@@ -216,11 +313,27 @@ Step(st, s) ==
             LET nf == Len(st.flows) + 1 IN
             [Emit(IF InKind(st, "sec") THEN Feat(s1, "detached-in-heading") ELSE s1, <<Lay("v")>>) EXCEPT !.flows = Append(@, <<>>), !.spans = Append(@, <<p0+1, 0>>),
                                            !.ctx = Append(@, Frame("fn", nf, p0))]
+         ELSE IF k \in {"marg", "mopt"} THEN
+            IF st.defs[MacroOf(s)] = "none" THEN
+               \* use before the definition: an unknown macro, its braced argument stays (as a group)
+               [AddUnk(Emit(s1, <<Lay("v")>>), "\\" \o MacroOf(s)) EXCEPT !.ctx = Append(@, Frame(IF k = "marg" THEN "grp" ELSE "ubr", CurFlow(st), p0))]
+            ELSE [Feat(s1, "umacro") EXCEPT !.ctx = Append(@, [Frame(k, CurFlow(st), p0) EXCEPT !.nm = MacroOf(s), !.mark = Len(st.flows[CurFlow(st)])])]
+         ELSE IF k = "copt" THEN
+            [s1 EXCEPT !.ctx = Append(@, [Frame(k, CurFlow(st), p0) EXCEPT !.mark = Len(st.flows[CurFlow(st)])])]
          ELSE [Emit(s1, <<Lay("v")>>) EXCEPT !.ctx = Append(@, Frame(k, CurFlow(st), p0))]
     [] s = "cb" ->
          LET fr == Top(st)
              s2 == [s1 EXCEPT !.ctx = SubSeq(@, 1, Len(@)-1)] IN
          IF fr.k = "fn" THEN [Emit(s2, <<Lay("v")>>) EXCEPT !.spans[fr.flow] = <<fr.start+1, p1>>]
+         ELSE IF fr.k = "marg" THEN
+            LET seg == SubSeq(st.flows[fr.flow], fr.mark + 1, Len(st.flows[fr.flow]))
+                d == st.defs[fr.nm]
+                \* \mc: an omitted optional argument takes the default text d
+                args == IF fr.nm = "mc" THEN (IF fr.args = <<>> THEN << <<It("f", "d", fr.start+1, p1, 0)>>, seg >> ELSE <<fr.args[1], seg>>)
+                        ELSE <<seg>>
+                s3 == [s2 EXCEPT !.flows[fr.flow] = SubSeq(@, 1, fr.mark)]
+                s4 == IF fr.nm = "mc" /\ fr.args = <<>> THEN Feat(s3, "default-used") ELSE s3 IN
+            NoteText(Emit(s4, <<Lay("x")>> \o ExpandBody(st.defs, d, args, fr.start+1, p1, 3) \o <<Lay("x")>>), "n")
          ELSE IF fr.k = "sec" THEN
             \* heading: a full stop is added unless the heading text is empty or ends with ! or ?
             IF fr.has /\ fr.last \notin {"!", "?"}
@@ -253,6 +366,22 @@ Step(st, s) ==
          ELSE Emit(s2, <<Lay("x"), It("g", "ws", p0+1, p1, 0), Lay("x"), Lay("cw")>>)
     [] OTHER -> s1
 
+
+(***************************************************************************)
+(* Composite symbols: whole source lines, for the line-removal logic (C05) *)
+(***************************************************************************)
+Expand(s) ==
+  CASE s = "L_a" -> <<"a","nl">> [] s = "L_ia" -> <<"sp","a","nl">> [] s = "L_iia" -> <<"sp","sp","a","nl">>
+    [] s = "L_lb" -> <<"lb","nl">> [] s = "L_ilb" -> <<"sp","sp","lb","nl">> [] s = "L_tlb" -> <<"tab","lb","nl">>
+    [] s = "L_uk" -> <<"uk","nl">> [] s = "L_iuk" -> <<"sp","uk","nl">>
+    [] s = "L_e" -> <<"nl">> [] s = "L_sp" -> <<"sp","nl">>
+    [] s = "L_cm" -> <<"cm">> [] s = "L_icm" -> <<"sp","cm">>
+    [] s = "L_alb" -> <<"a","sp","lb","nl">> [] s = "L_lba" -> <<"lb","sp","a","nl">>
+    [] s = "L_ob" -> <<"ob","nl">> [] s = "L_cb" -> <<"cb","nl">> [] s = "L_skp" -> <<"skp","nl">>
+    [] s = "L_par" -> <<"par","nl">> [] s = "L_vrb" -> <<"vrb","nl">> [] s = "L_ix2" -> <<"ix","lb","nl">>
+    [] OTHER -> <<s>>
+RECURSIVE AllowedSeq(_, _)
+AllowedSeq(st, ss) == IF ss = <<>> THEN TRUE ELSE Allowed(st, Head(ss)) /\ AllowedSeq(Step(st, Head(ss)), Tail(ss))
 
 RECURSIVE Run(_, _)
 Run(st, doc) == IF doc = <<>> THEN st ELSE Run(Step(st, Head(doc)), Tail(doc))
